@@ -11,6 +11,8 @@ from symx.core import Inconclusive, SBool, SInt, cur, fresh_bool, fresh_int, is_
 from symx.harness import SNP, stubs_description
 from symx.snp import SArr
 
+from props import alias_common as _alias
+
 ID = "C09"
 KINDS = ["LatticeMaze", "TargetedLatticeMaze", "SolvedMaze"]
 
@@ -367,6 +369,7 @@ def jobs(tier, seed):
             out.append(dict(h="hash", kind=kind, shape=[1, 2], L=3))
     for len2, nm2 in [(2, 2), (2, 5), (1, 2)]:
         out.append(dict(h="dataset_eq", len2=len2, n_mazes2=nm2))
+    out.append(dict(_alias.ALIAS_JOB))  # results must not alias library state, arguments or each other (props/alias_common.py)
     out[0]["twin"] = True
     return out
 
@@ -378,6 +381,7 @@ HARNESSES = {
     "hash": dict(run=_run_hash, replay=_replay_hash, patch=_PATCH),
     "dataset_eq": dict(run=_run_dataset_eq, replay=_replay_dataset_eq, patch=_PATCH),
 }
+HARNESSES["alias"] = _alias.alias_harness("C09")
 
 META = dict(
     functions=["LatticeMaze.__eq__/__ne__/__hash__ (as installed on the three classes)", "TargetedLatticeMaze.__post_init__", "TargetedLatticeMaze.__hash__",
@@ -394,3 +398,5 @@ META = dict(
     outside=["grids larger than the bound", "connection arrays of non-boolean dtype", "SolvedMaze(allow_invalid=True)", "hash distinctness (not claimed by the property)"],
     assumptions=["mazes built directly through the constructors"],
 )
+
+META.setdefault("degenerate", {})["alias"] = _alias.ALIAS_META
